@@ -1,0 +1,157 @@
+// SPDX-FileCopyrightText: 2026 The Pion community <https://pion.ly>
+// SPDX-License-Identifier: MIT
+
+//go:build verif
+
+package webrtc
+
+// Contracts for the contract-based verification in /verif (build tag verif); comments only.
+
+// ---------------------------------------------------------------- C38: enum text forms
+// For every named value v of each public enumeration: parsing v's text form gives v back.
+//@ lemma enum_roundtrip_BundlePolicy
+//@ props C38
+//@ vars v BundlePolicy
+//@ requires v >= BundlePolicyBalanced && v <= BundlePolicyMaxBundle
+//@ observe v
+//@ ensures newBundlePolicy(v.String()) == v
+
+//@ lemma enum_roundtrip_DataChannelState
+//@ props C38
+//@ vars v DataChannelState
+//@ requires v >= DataChannelStateConnecting && v <= DataChannelStateClosed
+//@ observe v
+//@ ensures newDataChannelState(v.String()) == v
+
+//@ lemma enum_roundtrip_DTLSTransportState
+//@ props C38
+//@ vars v DTLSTransportState
+//@ requires v >= DTLSTransportStateNew && v <= DTLSTransportStateFailed
+//@ observe v
+//@ ensures newDTLSTransportState(v.String()) == v
+
+//@ lemma enum_roundtrip_ICECandidateType
+//@ props C38
+//@ vars v ICECandidateType
+//@ requires v >= ICECandidateTypeHost && v <= ICECandidateTypeRelay
+//@ observe v
+//@ ensures first(NewICECandidateType(v.String())) == v && second(NewICECandidateType(v.String())) == nil
+
+//@ lemma enum_roundtrip_ICEComponent
+//@ props C38
+//@ vars v ICEComponent
+//@ requires v >= ICEComponentRTP && v <= ICEComponentRTCP
+//@ observe v
+//@ ensures newICEComponent(v.String()) == v
+
+//@ lemma enum_roundtrip_ICEConnectionState
+//@ props C38
+//@ vars v ICEConnectionState
+//@ requires v >= ICEConnectionStateNew && v <= ICEConnectionStateClosed
+//@ observe v
+//@ ensures NewICEConnectionState(v.String()) == v
+
+//@ lemma enum_roundtrip_ICECredentialType
+//@ props C38
+//@ vars v ICECredentialType
+//@ requires v >= ICECredentialTypePassword && v <= ICECredentialTypeOauth
+//@ observe v
+//@ ensures first(newICECredentialType(v.String())) == v && second(newICECredentialType(v.String())) == nil
+
+//@ lemma enum_roundtrip_ICEGatheringState
+//@ props C38
+//@ vars v ICEGatheringState
+//@ requires v >= ICEGatheringStateNew && v <= ICEGatheringStateComplete
+//@ observe v
+//@ ensures NewICEGatheringState(v.String()) == v
+
+//@ lemma enum_roundtrip_ICEProtocol
+//@ props C38
+//@ vars v ICEProtocol
+//@ requires v >= ICEProtocolUDP && v <= ICEProtocolTCP
+//@ observe v
+//@ ensures first(NewICEProtocol(v.String())) == v && second(NewICEProtocol(v.String())) == nil
+
+//@ lemma enum_roundtrip_ICERole
+//@ props C38
+//@ vars v ICERole
+//@ requires v >= ICERoleControlling && v <= ICERoleControlled
+//@ observe v
+//@ ensures newICERole(v.String()) == v
+
+//@ lemma enum_roundtrip_ICETransportPolicy
+//@ props C38
+//@ vars v ICETransportPolicy
+//@ requires v >= ICETransportPolicyAll && v <= ICETransportPolicyNoHost
+//@ observe v
+//@ ensures NewICETransportPolicy(v.String()) == v
+
+//@ lemma enum_roundtrip_ICETransportState
+//@ props C38
+//@ vars v ICETransportState
+//@ requires v >= ICETransportStateNew && v <= ICETransportStateClosed
+//@ observe v
+//@ ensures newICETransportState(v.String()) == v
+
+//@ lemma enum_roundtrip_NetworkType
+//@ props C38
+//@ vars v NetworkType
+//@ requires v >= NetworkTypeUDP4 && v <= NetworkTypeTCP6
+//@ observe v
+//@ ensures first(NewNetworkType(v.String())) == v && second(NewNetworkType(v.String())) == nil
+
+//@ lemma enum_roundtrip_PeerConnectionState
+//@ props C38
+//@ vars v PeerConnectionState
+//@ requires v >= PeerConnectionStateNew && v <= PeerConnectionStateClosed
+//@ observe v
+//@ ensures newPeerConnectionState(v.String()) == v
+
+//@ lemma enum_roundtrip_RTCPMuxPolicy
+//@ props C38
+//@ vars v RTCPMuxPolicy
+//@ requires v >= RTCPMuxPolicyNegotiate && v <= RTCPMuxPolicyRequire
+//@ observe v
+//@ ensures newRTCPMuxPolicy(v.String()) == v
+
+//@ lemma enum_roundtrip_RTPTransceiverDirection
+//@ props C38
+//@ vars v RTPTransceiverDirection
+//@ requires v >= RTPTransceiverDirectionSendrecv && v <= RTPTransceiverDirectionInactive
+//@ observe v
+//@ ensures NewRTPTransceiverDirection(v.String()) == v
+
+//@ lemma enum_roundtrip_SCTPTransportState
+//@ props C38
+//@ vars v SCTPTransportState
+//@ requires v >= SCTPTransportStateConnecting && v <= SCTPTransportStateClosed
+//@ observe v
+//@ ensures newSCTPTransportState(v.String()) == v
+
+//@ lemma enum_roundtrip_SDPSemantics
+//@ props C38
+//@ vars v SDPSemantics
+//@ requires v >= SDPSemanticsUnifiedPlan && v <= SDPSemanticsUnifiedPlanWithFallback
+//@ observe v
+//@ ensures newSDPSemantics(v.String()) == v
+
+//@ lemma enum_roundtrip_SDPType
+//@ props C38
+//@ vars v SDPType
+//@ requires v >= SDPTypeOffer && v <= SDPTypeRollback
+//@ observe v
+//@ ensures NewSDPType(v.String()) == v
+
+//@ lemma enum_roundtrip_SignalingState
+//@ props C38
+//@ vars v SignalingState
+//@ requires v >= SignalingStateStable && v <= SignalingStateClosed
+//@ observe v
+//@ ensures newSignalingState(v.String()) == v
+
+//@ lemma enum_roundtrip_RTPCodecType
+//@ props C38
+//@ vars v RTPCodecType
+//@ requires v >= RTPCodecTypeAudio && v <= RTPCodecTypeVideo
+//@ observe v
+//@ ensures NewRTPCodecType(v.String()) == v
